@@ -42,7 +42,7 @@ CLI_EVERY = 12
 def streams(ctx):
     return [("modules", ctx.scale(160, 3000)), ("hand", len(HAND)), ("header_comments", ctx.scale(24, 300)),
             ("big_modules", ctx.scale(8, 100)), ("prose_types", ctx.scale(24, 300)),
-            ("quote_prose", ctx.scale(32, 400)), ("repo_files", len(corpus.py_files(max_bytes=ctx.scale(4000, 12000)))),
+            ("quote_prose", ctx.scale(32, 400)), ("repo_files", len(corpus.py_files(max_bytes=ctx.scale(3000, 12000)))),
             ("line_ends", ctx.scale(60, 600))]
 
 
@@ -235,7 +235,7 @@ def run_case(ctx, P, stream, idx):
         src = progen.gen_module(r, n_items=r.randint(8, 14), prelude=True)  # many definitions in one file
     elif stream == "repo_files":
         # the repository's own sources (package and tests): modules nobody generated
-        with open(corpus.py_files(max_bytes=ctx.scale(4000, 12000))[idx]) as f:
+        with open(corpus.py_files(max_bytes=ctx.scale(3000, 12000))[idx]) as f:
             src = f.read()
     else:
         src = HAND[idx] if stream == "hand" else progen.gen_module(r, n_items=r.randint(1, 3), prelude=r.random() < 0.3)
